@@ -40,6 +40,20 @@ func (e StdEng) Map(fn interface{}, a Tensor, opts ...FuncOpt) (retVal Tensor, e
 		if a.Size() != reuse.Size() {
 			return nil, errors.Errorf(shapeMismatch, a.Shape(), reuse.Shape())
 		}
+		if incr {
+			// reuse += fn(a): map a private copy of a, then add it into reuse
+			var mapped Tensor
+			if mapped, err = e.Map(fn, a); err != nil {
+				return nil, err
+			}
+			return e.Add(reuse, mapped, UseUnsafe())
+		}
+		if ad, ok := a.(DenseTensor); ok && ad != reuse {
+			// the function is applied to the elements of a, not to whatever reuse held before
+			if _, err = copyDenseIter(reuse, ad, nil, nil); err != nil {
+				return nil, errors.Wrapf(err, "StdEng.Map")
+			}
+		}
 	}
 
 	// PREP DATA
@@ -75,9 +89,11 @@ func (e StdEng) Map(fn interface{}, a Tensor, opts ...FuncOpt) (retVal Tensor, e
 	// SET RETVAL
 	switch {
 	case reuse != nil:
-		if err = reuseCheckShape(reuse, a.Shape()); err != nil {
-			err = errors.Wrapf(err, "Reuse shape check failed")
-			return
+		if ad, ok := a.(DenseTensor); !ok || ad != reuse { // when reuse is a itself its shape (and any pending transpose) is already right
+			if err = reuseCheckShape(reuse, a.Shape()); err != nil {
+				err = errors.Wrapf(err, "Reuse shape check failed")
+				return
+			}
 		}
 		retVal = reuse
 	case !safe:
